@@ -217,7 +217,7 @@ def one_codec(sio, spec, opts):
         infos = [(i.filename, i.is_dir()) for i in z.infolist()]
         schema = json.loads(z.read("schema.json"))
     ns, nm = norm_schema(schema, [n for n in names if n != "schema.json"])
-    rec["dump"] = "ok:" + PE.archive_text(ns, nm)
+    rec["dump"] = "ok:" + PE.archive_text(ns, alias_orphans(nm))
     rec["names"] = names
     rec["raw_schema"] = schema if opts.get("keep_schema") else None
     rec["protocol"] = schema.get("protocol")
@@ -250,6 +250,12 @@ def one_codec(sio, spec, opts):
         rec["stable"] = stable
         rec["draws"] = rng_draws(obj, cur)
     return rec
+
+
+def alias_orphans(norm_members):
+    """members no node refers to keep their id/uuid name in norm_schema: rename them too"""
+    import re
+    return sorted(n if re.fullmatch(r"member\d+\.\w+", n) else "orphan" + Path(n).suffix for n in norm_members)
 
 
 def rng_draws(a, b):
@@ -362,11 +368,14 @@ def norm_archive(data):
                 walk(x)
     walk(schema)
     alias = {n: f"member{i}" + Path(n).suffix for i, n in enumerate(order)}
-    cont = {alias.get(n, n): h for n, h in contents.items()}
+    cont = {}
+    for n, h in contents.items():
+        cont.setdefault(alias.get(n, "orphan" + Path(n).suffix), []).append(h)
+    cont = {k: sorted(v) for k, v in cont.items()}
     wf = schema_wf(schema, names, infos)
     if bad_crc:
         wf.append(f"bad CRC in member {bad_crc}")
-    return PE.archive_text(ns, nm), cont, wf, ctypes
+    return PE.archive_text(ns, alias_orphans(nm)), cont, wf, ctypes
 
 
 def one_sinks(sio, spec, opts):
